@@ -45,6 +45,9 @@ type BNode struct {
 // Blueprint is a labelled forest on nodes 1..N (Nodes[0] is unused: 0 denotes genesis).
 type Blueprint struct {
 	Nodes []BNode `json:"nodes"`
+	// TimeBase is the timestamp of node 0's successor minus 600 s (0 = 1600000000). The synctest
+	// clock starts at 2000-01-01, so a base before 1999 makes every header older than 24 h.
+	TimeBase uint32 `json:"time_base,omitempty"`
 }
 
 // N is the number of nodes.
@@ -173,6 +176,10 @@ type Universe struct {
 // build several universes with disjoint hashes.
 func Fabricate(b Blueprint, salt byte) *Universe {
 	n := b.N()
+	timeBase := uint32(1600000000)
+	if b.TimeBase != 0 {
+		timeBase = b.TimeBase
+	}
 	u := &Universe{B: b, Raw: make([]RawHeader, n+1), H: make([]Hash32, n+1)}
 	u.Raw[0] = GenesisRaw()
 	u.H[0] = u.Raw[0].Hash()
@@ -197,7 +204,7 @@ func Fabricate(b Blueprint, salt byte) *Universe {
 			Version: nodeVersions[i%len(nodeVersions)],
 			Prev:    prev,
 			Merkle:  m,
-			Time:    1600000000 + uint32(i)*600,
+			Time:    timeBase + uint32(i)*600,
 			Bits:    b.Nodes[i].Bits,
 			Nonce:   nodeNonces[i%len(nodeNonces)],
 		}
